@@ -74,6 +74,8 @@ def generate(rng, tier):
                 op["cv"] = {"typ": rng.choice(["SUR", "WFR", "wfr"]), "nnb": rng.random() < 0.5}
             if rng.random() < 0.15:
                 op["pathobj"] = True          # the file named by a pathlib.Path instead of a string
+            if fmt != "codev" and rng.random() < 0.12:
+                op["scalars"] = "0d"          # spacing and wavelength kept as 0-d numpy arrays by the caller
             if fmt == "ifg" and rng.random() < 0.05:
                 op["dx"] = 0.0          # the library's "no lateral calibration" marker
             if fmt == "ifg" and rng.random() < 0.25:
@@ -109,7 +111,9 @@ def generate(rng, tier):
         elif c < 0.5 and len(paths) > 0 and rng.random() < 0.5:
             # load an Interferogram from one file, change its calibration, save it somewhere, read that
             ops.append({"op": "resave", "src": rng.choice(written), "path": rng.choice(paths) + ".re",
-                        "prep": [rng.choice([["latcal", round(10 ** rng.uniform(-2, 1), 4)], ["strip_latcal"], ["none"]])]})
+                        "prep": [rng.choice([["latcal", round(10 ** rng.uniform(-2, 1), 4)], ["strip_latcal"], ["none"],
+                                             ["rebuild"], ["rebuild"]])
+                                 for _ in range(rng.choice([1, 1, 2]))]})
             ops.append({"op": "read", "path": ops[-1]["path"], "via": rng.choice(["io", "ifg"])})
         elif c < 0.8:
             op = {"op": "read", "path": rng.choice(written), "via": rng.choice(["io", "io", "ifg"])}
@@ -645,6 +649,7 @@ def execute(plan):
             try:
                 obj = Interferogram.from_zygo_dat(op["src"])
                 dx_new = float(obj.dx)
+                wl = float(obj.wavelength)
                 for step in op["prep"]:
                     if step[0] == "latcal":
                         obj.latcal(step[1])
@@ -652,8 +657,13 @@ def execute(plan):
                     elif step[0] == "strip_latcal":
                         obj.strip_latcal()
                         dx_new = 1.0
+                    elif step[0] == "rebuild" and obj.meta:
+                        # a new object from the pieces of the loaded one: same data, same spacing, the
+                        # wavelength taken from the same metadata dict (as from_zygo_dat itself does)
+                        obj = Interferogram(obj.data, dx=obj.dx, wavelength=None, meta=obj.meta,
+                                            intensity=obj.intensity)
+                        bump(probes, "interferogram_rebuilt_from_its_own_meta")
                 loaded = np.array(obj.data, dtype=np.float64)
-                wl = float(obj.wavelength)
                 obj.save_zygo_dat(op["path"])
                 now = w.disk.files.get(op["path"])
                 # what must come back is what the object held when it was saved (the map as loaded,
@@ -702,7 +712,9 @@ def execute(plan):
                 # the caller's long-lived Interferogram: built once, processed a little, then saved (perhaps
                 # several times).  What must come back is what the object holds when it is saved.
                 from prysm.interferogram import Interferogram
-                obj = Interferogram(holder["z"], dx=op["dx"], wavelength=op["wvl"],
+                zero_d = op.get("scalars") == "0d" and op["dx"] != 0
+                obj = Interferogram(holder["z"], dx=np.array(float(op["dx"])) if zero_d else op["dx"],
+                                    wavelength=np.array(float(op["wvl"])) if zero_d else op["wvl"],
                                     intensity=_intensity(np, holder["z"], op.get("intensity")))
                 try:
                     for step in (op.get("prep") or []):
@@ -778,8 +790,15 @@ def execute(plan):
                 ev["fault"] = [fault["kind"], at]
             out = "ok"
             prev_entry, prev_bytes = model.get(path), w.disk.files.get(path)
+            dx_arg, wvl_arg = op["dx"], op["wvl"]
+            if op.get("scalars") == "0d" and fmt in ("zygo_path", "zygo_file"):
+                # the caller's own 0-d arrays, the same objects for every save of this map
+                if "dx_obj" not in holder:
+                    holder["dx_obj"], holder["wvl_obj"] = np.array(float(op["dx"])), np.array(float(op["wvl"]))
+                dx_arg, wvl_arg = holder["dx_obj"], holder["wvl_obj"]
+                bump(probes, "spacing_and_wavelength_as_0d_arrays")
             try:
-                _write(w, fmt, path, z, op["dx"], op["wvl"], op.get("cv"), holder, op.get("prep"), op.get("intensity"),
+                _write(w, fmt, path, z, dx_arg, wvl_arg, op.get("cv"), holder, op.get("prep"), op.get("intensity"),
                        bool(op.get("pathobj")) and fmt != "zygo_file")
             except SimCrash:
                 out = "crash"
@@ -787,6 +806,11 @@ def execute(plan):
                 out = "raised:" + type(e).__name__
             w.disk.armed.pop(path, None)
             ev["out"] = out
+            if "dx_obj" in holder and (float(holder["dx_obj"]) != float(op["dx"]) or float(holder["wvl_obj"]) != float(op["wvl"])):
+                viol("input-mutated", i, "zygo", "none",
+                     what="the 0-d array holding the spacing / wavelength passed to the writer was modified in place")
+                holder["dx_obj"][...] = float(op["dx"])
+                holder["wvl_obj"][...] = float(op["wvl"])
             # the caller's array must still hold what was handed in
             same = z.shape == zfix.shape and z.dtype == zfix.dtype and bool(
                 np.all((z == zfix) | (np.isnan(z) & np.isnan(zfix))))
